@@ -74,7 +74,7 @@ check(
     "engine-B",
     "exploration",
     "runtime monitoring under controlled-schedule execution: submission-history monitor: identity of submit outputs, registry size, launch log vs success markers and live processes, over seeded schedules and successive runs",
-    "Duplicates at any position, completed and aborted previous runs (with re-attached live processes) are replayed under seeded schedules; a second job object, a relaunch after success or a launch beside a live process is a violation. An Engine-A part runs 2-3 real scheduler processes submitting the same jobs on one workspace (bodies never overlap and never run again after success, judged on the append-only task log) and starts the job script a second time while the first body runs. Held on the schedules explored; unexplored schedules are not covered.",
+    "Duplicates at any position, completed and aborted previous runs (with re-attached live processes) are replayed under seeded schedules; a second job object, a relaunch after success or a launch beside a live process is a violation. An Engine-A part runs 2-3 real scheduler processes submitting the same jobs on one workspace (bodies never overlap and never run again after success, judged on the append-only task log) and starts the job script a second time while the first body runs; a further case runs a generate-only experiment between two normal runs of the same tasks. Held on the schedules explored; unexplored schedules are not covered.",
     "Trusted: the simulation boundary (SimProcess writes the runner's markers; foreign processes are a driver-serialised second CounterToken object), the plan as ground truth, asyncio FIFO inside the loop.",
     "DESIGN.md §2.3, §3 C05",
 )
@@ -101,7 +101,7 @@ check(
     "engine-B",
     "exploration",
     "runtime monitoring under controlled-schedule execution: capacity ledger monitor (launch/exit/foreign acquire/release) plus on-disk recount at every quiescent point, with a foreign agent on the same token directory",
-    "The monitor's own ledger and the sum of the token files never exceed the total, for heterogeneous requests, two tokens per job and foreign acquisitions whose notification is still queued. An Engine-A part shares one file token between 2-3 real scheduler processes with real job processes and sweeps the running sum of requests over the append-only task log. Held on the schedules explored; unexplored schedules are not covered.",
+    "The monitor's own ledger and the sum of the token files never exceed the total, for heterogeneous requests, two tokens per job and foreign acquisitions whose notification is still queued. An Engine-A part shares one file token between 2-3 real scheduler processes with real job processes and sweeps the running sum of requests over the append-only task log; half of the rounds run under random preemption injection, one round per worker delays one statement of the token / lock code (single-delay sweep), one defines the token a second time with a larger total inside one process. Held on the schedules explored; unexplored schedules are not covered.",
     "Trusted: the simulation boundary (SimProcess writes the runner's markers; foreign processes are a driver-serialised second CounterToken object), the plan as ground truth, asyncio FIFO inside the loop.",
     "DESIGN.md §2.3, §3 C08",
 )
@@ -110,7 +110,7 @@ check(
     "engine-B",
     "exploration",
     "runtime monitoring under controlled-schedule execution: conservation-at-quiescence monitor: token files, fresh recount, in-memory availability, waiting-with-capacity; observer-death detection",
-    "At terminal quiescence no token file is left, a fresh recount shows full capacity, no job waits while its request fits; covers failures, aborted starts, foreign files created before written, reclaim by another process, previous aborted runs. An Engine-A part kills one of several real scheduler processes while its job holds the shared token: the survivors must drain their plans (hangs decided on quiescence certificates) and a fresh token object must count full capacity afterwards. Held on the schedules explored; unexplored schedules are not covered.",
+    "At terminal quiescence no token file is left, a fresh recount shows full capacity, no job waits while its request fits; covers failures, aborted starts, foreign files created before written, reclaim by another process, previous aborted runs. An Engine-A part kills one of several real scheduler processes while its job holds the shared token: the survivors must drain their plans (hangs decided on quiescence certificates) and a fresh token object must count full capacity afterwards; directed preemption places the reclaim of a stale token file before, during and after the start-up of a new token object, and a single-delay sweep delays one statement of the token / lock code per round. Held on the schedules explored; unexplored schedules are not covered.",
     "Trusted: the simulation boundary (SimProcess writes the runner's markers; foreign processes are a driver-serialised second CounterToken object), the plan as ground truth, asyncio FIFO inside the loop.",
     "DESIGN.md §2.3, §3 C09",
 )
@@ -121,7 +121,7 @@ check(
     "exploration",
     "runtime monitoring: history monitor (random assignment / meta / pre-task attempts interleaved with identifier requests on every harness-computed reachable node after submit or seal)",
     "After dry-run submit, generate-only submit or seal (also cyclic graphs), every attempt of the three operations named in the statement on every node the harness's own shadow "
-    "model finds reachable must raise, and all identifiers and the job directory are re-read after every step and must equal their values at submission.",
+    "model finds reachable must raise, and all identifiers and the job directory are re-read after every step and must equal their values at submission; copyconfig with overrides is attempted as well and what every reachable node holds (values by identity, meta flag, pre-task list) is compared with a snapshot taken at submission after every step.",
     "Trusted: reachability computed from the recipe (parameters, containers, task outputs and their tasks, pre/init tasks, cycles).",
     "DESIGN.md §3 C14",
 )
@@ -188,7 +188,7 @@ check(
     "runtime monitoring with fault injection: sys.monitoring LINE crash-point injector (sitecustomize) in the real job process; offline checks over the job directory, the body's append-only log and the run lock",
     "Every statement boundary of the task runner and the task body between TaskRunner.run and process exit is enumerated as the instant of SIGKILL, SIGTERM and SIGINT for four task "
     "variants, on the real generated script and params.json; after each death: success marker only with a completed body, run lock obtainable by another process, failure marker after a "
-    "termination signal in the body, relaunch runs the body exactly when no success marker exists, no pid file after a natural end.",
+    "termination signal in the body, relaunch runs the body exactly when no success marker exists, no pid file after a natural end. Also: a signal whose handler runs inside a finalizer of the body (the handler's exit is swallowed there), and launches of an already finished job hit by a catchable signal (double faults).",
     "Trusted: crash points are statement boundaries (C-level calls are atomic for the injector); the pid file is written by the harness as the scheduler does.",
     "DESIGN.md §2.5, §3 C10",
 )
@@ -200,7 +200,7 @@ check(
     "runtime monitoring: index model monitor after every run of generated histories on the controlled engine, real 'orphans' command as second observer, crash-point injection in experiment.__enter__/__exit__, holder-file overlap detector for two real processes",
     "Histories of 2-6 runs (normal / aborted after k submissions) are executed; after each run the symlink index and its backup are compared with the harness's model and the real orphans "
     "command must not list a protected job; a victim process replaying such histories is killed at every statement of __enter__/__exit__ and a follow-up run must restore the exact index; "
-    "pairs of real processes contend for one experiment and a holder file detects any overlap.",
+    "real processes contend for one experiment (together, or arriving while the holder has a job indexed): a holder file detects any overlap and every holder observes its own index link while it holds the experiment.",
     "Trusted: the progress log of the victim for killed runs; jobs are simulated processes (the index code does not depend on them).",
     "DESIGN.md §3 C16",
 )
